@@ -14,8 +14,8 @@ class SimFuture(Future):
         self._k = kernel
 
     def result(self, timeout=None):
-        if not self.done():
-            self._k.block_until(self.done, "future.result")
+        # (always through the kernel, also when already done: a caller that polls in a loop must be visible)
+        self._k.block_until(self.done, "future.result")
         return super().result(0)
 
     def exception(self, timeout=None):
